@@ -23,6 +23,7 @@ import (
 	"github.com/metal-toolbox/audito-maldito/ingesters/namedpipe"
 	"github.com/metal-toolbox/audito-maldito/internal/common"
 	"github.com/metal-toolbox/audito-maldito/internal/health"
+	"github.com/metal-toolbox/audito-maldito/processors/auditd"
 	"github.com/metal-toolbox/audito-maldito/processors/auditd/sessiontracker"
 )
 
@@ -424,7 +425,7 @@ var malformedLines = []string{
 }
 
 func genC15(rt *rapid.T) c15Case {
-	c := c15Case{Kind: pick(rt, "kind", []string{"interleaved", "interleaved", "malformed", "encoder_fail", "encoder_fail_during_login", "bad_login_pid", "invalid_login", "invalid_login_pending_session"})}
+	c := c15Case{Kind: pick(rt, "kind", []string{"interleaved", "interleaved", "malformed", "malformed_backlog", "encoder_fail", "encoder_fail_during_login", "bad_login_pid", "invalid_login", "invalid_login_pending_session"})}
 	// a correlated session s1 (login first) with n events, up to three
 	// concurrently open kernel events
 	n := rapid.IntRange(2, 9).Draw(rt, "n")
@@ -463,7 +464,7 @@ func genC15(rt *rapid.T) c15Case {
 	}
 	total := len(c.Order)
 	switch c.Kind {
-	case "malformed":
+	case "malformed", "malformed_backlog":
 		if rapid.Bool().Draw(rt, "const") {
 			c.BadLine = pick(rt, "bad", malformedLines)
 		} else {
@@ -491,7 +492,55 @@ func genC15(rt *rapid.T) c15Case {
 	return c
 }
 
+// execC15Backlog: the daemon wires the audit lines through a buffered channel
+// (capacity 10000); the ingester may be far ahead of the processor. The whole
+// stream, with the malformed line somewhere inside, is queued before Read starts.
+func execC15Backlog(c c15Case) Outcome {
+	if _, perr := auparse.ParseLogLine(c.BadLine); perr == nil {
+		return Outcome{Skip: "line_accepted_by_auparse"}
+	}
+	if strings.TrimSpace(c.BadLine) == "" || c.BadLine == "" {
+		return Outcome{Skip: "empty_line"}
+	}
+	var lines []string
+	next := make([]int, len(c.Events))
+	for i, e := range c.Order {
+		if i == c.BadAt {
+			lines = append(lines, c.BadLine)
+		}
+		lines = append(lines, c.Events[e].Lines[next[e]])
+		next[e]++
+	}
+	if c.BadAt >= len(c.Order) {
+		lines = append(lines, c.BadLine)
+	}
+	audits := make(chan string, 10000)
+	for _, l := range lines {
+		audits <- l
+	}
+	rec := &Rec{}
+	ctx, cancel := context.WithCancel(context.Background())
+	defer cancel()
+	a := auditd.Auditd{Audits: audits, Logins: make(chan common.RemoteUserLogin), EventW: newWriter(rec), Health: health.NewHealth()}
+	done := make(chan error, 1)
+	go func() { done <- a.Read(ctx) }()
+	select {
+	case err := <-done:
+		if err == nil || !strings.Contains(err.Error(), c.BadLine) {
+			return fail("malformed line %q at position %d of a queued burst of %d lines: Read returned %v, want an error that identifies the offending line", c.BadLine, c.BadAt, len(lines), err)
+		}
+	case <-time.After(5 * time.Second):
+		cancel()
+		<-done
+		return fail("malformed line %q at position %d of a queued burst of %d lines: Read kept running (line skipped silently)", c.BadLine, c.BadAt, len(lines))
+	}
+	return Outcome{NT: c.BadAt > 0, Labels: []string{"kind:malformed_backlog"}}
+}
+
 func execC15(c c15Case) Outcome {
+	if c.Kind == "malformed_backlog" {
+		return execC15Backlog(c)
+	}
 	if c.Kind == "encoder_fail_during_login" {
 		return execC15FailDuringLogin(c)
 	}
